@@ -45,6 +45,34 @@ NEEDS = {
  'C19-B': ('only JSONDecodeError caught in the receive loop', 'a datagram that is not valid UTF-8', 'caught at once'),
  'C20-A': ('rotation slice files[:-(N-1)]', 'retention exactly 1', 'caught at once'),
  'C20-B': ('subscription removed before the level is validated', 'a valid logging request followed by a rejected one on the same module', 'caught at once'),
+ 'C01-C': ('FloatRange.__call__ no longer maps +-inf to the largest double', 'an Infinity token offered to a double', 'caught at once'),
+ 'C01-D': ('ScaledInteger tolerance band max(|value|*rel, scale)', 'limits more than 8e6 grid steps from zero and a candidate a few steps outside', 'strengthened: scaled shapes with concrete limits far from zero added'),
+ 'C02-C': ('string length counted in UTF-8 bytes', 'a non-ASCII string that fits in characters but not in bytes', 'caught at once'),
+ 'C02-D': ('client flag not propagated to nested datatypes', 'a nested struct with optional members and a value omitting one', 'strengthened: partial client structs (nested) added'),
+ 'C03-C': ('copied / rebuilt struct shares its optional list', 'in-place change of the twin\'s optional members', 'strengthened: optional-list isolation added'),
+ 'C03-D': ('StructOf.compatible loops over the target\'s members', 'source struct with a member unknown to the target', 'caught at once'),
+ 'C04-C': ('automatic limit check skipped when a check hook is inherited', 'check hook in an ancestor class, limit parameters in a subclass', 'strengthened: inherited-limits scenario added'),
+ 'C04-D': ('argument-less command accepts falsy payloads', 'do m:cmd 0 / false / [] / ""', 'caught at once'),
+ 'C05-C': ('changed value with an older time stamp stored but not announced', 'explicit time stamp older than the cached one', 'strengthened: announce-with-timestamp operation added'),
+ 'C05-D': ('most specific subscriber set shadows the others', 'one generally activated connection plus one with a parameter/module scope', 'strengthened: two more connections with narrower scopes added'),
+ 'C06-C': ('readonly decided by the existence of a write wrapper', 'a parameter made readonly by the configuration / readonly with internal write method', 'caught at once (shipped sim configuration)'),
+ 'C06-D': ('features collected from the direct bases only', 'a feature inherited through a parent module class', 'caught at once'),
+ 'C10-C': ('configuration of an unimplemented optional accessible discarded', 'a configuration naming an optional accessible the class does not implement', 'strengthened: such an accessible added to the catalogue class'),
+ 'C10-D': ('creation failure blacklists the whole python module', 'an unknown parameter property first, further failing modules of the same python module after it', 'caught at once'),
+ 'C13-C': ('slow-poll age threshold taken from the last module', 'two modules with different slow intervals on one thread', 'strengthened: different-slow-intervals scenario added'),
+ 'C13-D': ('start-up phase retried while communication fails', 'a communication failure at start-up whose message differs from call to call', 'strengthened: persistent communication failure + stuck-thread detection added'),
+ 'C14-C': ('status derivation ignores a pending start without cleanup', 'a start request arriving while the run finishes normally in the same cycle, next state without status code', 'strengthened: restart-at-finish scenario in the module harness'),
+ 'C14-D': ('stop() ignored on an inactive machine', 'start(A) followed by stop() without a cycle in between', 'caught at once'),
+ 'C15-C': ('empty optional attachment cached as None', 'an unconfigured optional attachment read once, then shutdown', 'caught at once'),
+ 'C15-D': ('start values written only for polled modules', 'enablePoll=False module with a configured value', 'caught at once'),
+ 'C16-C': ('readline remembers the scanned offset', 'a multi byte terminator cut across a chunk boundary', 'caught (first as harness error, then as violation after wrapping the framing calls)'),
+ 'C16-D': ('reconnect callbacks skipped when the marker is "connected"', 'disconnect, reconnect, second disconnect, reconnect at the first attempt', 'caught at once'),
+ 'C17-C': ('snapshot marked saved before the rename', 'an I/O error exactly at the rename', 'caught at once'),
+ 'C17-D': ('given flag only for parameters with a write method', 'a readonly persistent parameter configured and stored with different values', 'strengthened: readonly persistent parameter added'),
+ 'C18-C': ('insideRW counter not restored after an exception', 'one failing member read during a struct read, further operations afterwards', 'strengthened: failing-struct-read operation added'),
+ 'C18-D': ('automatic limit check skipped when a check hook is inherited', 'check hook in an ancestor, limits in a subclass', 'strengthened: hook-in-ancestor layout added'),
+ 'C20-C': ('rotation sorts by modification time', 'an old log file touched recently', 'caught at once'),
+ 'C20-D': ('connection reset only if it was generally activated', 'logging enabled without activate, then disconnect', 'caught at once'),
 }
 
 
